@@ -3,6 +3,8 @@
 
     A|<sync|async>|<oc>|<class>|<attrs>|<result>     well-formed `name = value, …` list
     R|<sync|async>|<oc>|<class>|<hex text>|<result>  not a `name = value` list for syn (must be `ERR…`)
+    (`<oc>`: 1 if this build of the macro crate panics on `usize` overflow in the `max_memory` arithmetic —
+     always 0 since the arithmetic is `checked_mul` (commit 1b1b026); kept for compatibility, ignored)
     T|<hex return-type tokens>|<0|1>                 `is_result` as the macros compute it, vs `isResultSpelling`
     #…                                               comment / statistics
 
@@ -18,7 +20,8 @@
   `handleAttrsLine` answers `ok`, `skip` (comment line), or one or more findings joined by ` ;; ` among
     `DIFF …`      the model parser and the real parser disagree on this input,
     `MON C19 …`   a monitor evaluated on the REAL result alone is false:
-                    M1 a list the property says must be rejected was accepted by the real parser,
+                    M1 a list the property says must be rejected (an unknown name, or an invalid policy /
+                       scope / limit / ttl / max_memory / frequency_weight value ANYWHERE in it) was accepted,
                     M2 a valid list was not accepted with exactly the values `meaning` assigns,
                     M3 (R lines) text that is not a name-value list was not refused,
     `BAD …`       malformed line.
@@ -254,11 +257,10 @@ def monitors (k : Kind) (l : AttrList) (real : String) : List String :=
 def handleAttrsLine (line : String) : String :=
   if line.startsWith "#" then "skip"
   else match line.splitOn "|" with
-  | ["A", kS, ocS, cls, attrsS, real] =>
+  | ["A", kS, _, cls, attrsS, real] =>
     match parseKind kS, parseAttrs attrsS with
     | some k, some l =>
-      let oc := ocS = "1"
-      let r := parse k oc l
+      let r := parse k l
       let d := match diffResult k r real with
         | none => []
         | some why => [s!"DIFF kind={kS} class={cls} attrs=[{attrsS}] :: {why}"]
